@@ -596,6 +596,11 @@ def written_fields(tu, fn, depth=0, seen=None):
         if "callee" in x and x.get("member_call"):
             obj = strip_casts(kids(x)[0])
             f = match.this_field(obj)
+            # element of a member container: children_[i].set_bit(...)
+            base = obj
+            while f is None and match.index_parts(base):
+                base = strip_casts(match.index_parts(base)[0])
+                f = match.this_field(base)
             if f and not x["callee"].get("const"):
                 out.add(f)
             if obj["k"] == "This":
@@ -616,12 +621,57 @@ def written_fields(tu, fn, depth=0, seen=None):
     return out
 
 
-def check_clear_complete(ck, tu, rec, const_fields=()):
-    clears = tu.find(name="clear", record=rec)
+def check_build_replaces(ck, tu, rec):
+    """build_heap() replaces the heap's contents: no element is appended to heap_ on a path that has not emptied or
+    overwritten it first"""
+    RESET = ("assign", "clear", "resize", "operator=", "swap")
+    APPEND = ("push_back", "emplace_back", "insert", "emplace")
+    for fn in tu.find(name="build_heap", record=rec):
+        g = cfgm.CFG(fn)
+        resets, appends, writes = [], [], []
+        for z in fn.nodes():
+            if "callee" not in z:
+                continue
+            nm = z["callee"]["name"]
+            on_heap = z.get("member_call") and kids(z) and match.this_field(kids(z)[0]) == "heap_"
+            if z["k"] == "CXXOperatorCallExpr" and z.get("op") == "=" and kids(z) and match.this_field(kids(z)[0]) == "heap_":
+                resets.append(z)
+            elif on_heap and nm in RESET:
+                resets.append(z)
+            elif on_heap and nm in APPEND:
+                appends.append(z)
+            elif nm in ("back_inserter", "inserter", "front_inserter") and kids(z) and match.this_field(kids(z)[0]) == "heap_":
+                appends.append(z)
+            elif nm in ("copy", "move", "copy_n", "uninitialized_copy") and any(
+                    match.this_field(kids(q)[0]) == "heap_" for a in kids(z) for q in ir.walk(a)
+                    if "callee" in q and q["callee"]["name"] == "begin" and q.get("member_call") and kids(q)):
+                writes.append(z)
+        tag = "%s::build_heap(%s)" % (rec.split("::")[-1], fn.params[0]["ty"].replace("std::", "")[:30])
+        bad = None
+        for a in appends:
+            pa = g.pos_deep(a)
+            if pa is not None and g.path_from_entry_avoiding(pa, [g.pos_deep(r) for r in resets if g.pos_deep(r) is not None]) is not None:
+                bad = a
+        # a sized overwrite needs resize(source size) in front of the copy
+        for w in writes:
+            pw = g.pos_deep(w)
+            if not any(r["callee"]["name"] == "resize" and g.dominates(g.pos_deep(r), pw) for r in resets if "callee" in r):
+                bad = bad or w
+        if bad is not None:
+            ck.violation("BUILD-REPLACES", fn.qname, tag, "build_heap() adds the new keys to heap_ without discarding what it held (%s): a heap that was "
+                         "used before keeps its old elements" % dtable.describe(bad)[:70], fn.nloc(bad))
+        elif not (resets or appends or writes):
+            ck.violation("BUILD-REPLACES", fn.qname, tag + ":none", "build_heap() never stores the keys into heap_", fn.loc)
+        else:
+            ck.ok("BUILD-REPLACES", tag, "heap_ is replaced (%s)" % ", ".join(sorted({(r.get("callee") or {}).get("name", "=") for r in resets})))
+
+
+def check_clear_complete(ck, tu, rec, const_fields=(), method="clear"):
+    clears = tu.find(name=method, record=rec)
     for cl in clears:
         mut = set()
         for fn in tu.find(record=rec):
-            if fn.rtargs != cl.rtargs or fn.kind in ("ctor", "dtor") or fn.name == "clear":
+            if fn.rtargs != cl.rtargs or fn.kind in ("ctor", "dtor") or fn.name == method:
                 continue
             if fn.d.get("copy_assign") or fn.d.get("move_assign"):
                 continue
@@ -631,9 +681,9 @@ def check_clear_complete(ck, tu, rec, const_fields=()):
         miss = sorted(mut - got)
         if miss:
             ck.violation("CLEAR-COMPLETE", cl.qname, "missing:" + ",".join(miss),
-                         "clear() does not re-establish %s, which the mutators change: the next use starts from stale state" % ", ".join(miss), cl.loc)
+                         "%s() does not re-establish %s, which the mutators change: the next use starts from stale state" % (method, ", ".join(miss)), cl.loc)
         else:
-            ck.ok("CLEAR-COMPLETE", inst_tag(cl) + "::clear", "resets all %d mutable state fields (%s)" % (len(mut), ",".join(sorted(mut))))
+            ck.ok("CLEAR-COMPLETE", inst_tag(cl) + "::" + method, "resets all %d mutable state fields (%s)" % (len(mut), ",".join(sorted(mut))))
 
 
 def check_rank(ck, tu):
@@ -662,6 +712,42 @@ def check_rank(ck, tu):
             ck.violation("RANK-TABLE", fn.qname, fn.rtargs[0].replace(" ", "_"), "key ranking is not the order-preserving sign-bit flip", fn.loc)
 
 
+BITS = {"unsigned char": 8, "signed char": 8, "char": 8, "unsigned short": 16, "short": 16, "unsigned int": 32, "int": 32, "unsigned": 32,
+        "unsigned long": 64, "long": 64, "unsigned long long": 64, "long long": 64}
+
+
+def check_clz_width(ck, tu):
+    """`W - 1 - clz(v)` is the index of the highest set bit only if W is the bit width of the type clz() actually sees
+    (after integer promotion), in every instantiation"""
+    n = 0
+    for fn in tu.functions:
+        if fn.body is None or not fn.qname.startswith("tlx::radix_heap_detail::"):
+            continue
+        for z in fn.nodes():
+            if "callee" not in z or z["callee"]["name"] != "clz":
+                continue
+            par = fn.parent(z)
+            while par is not None and par["k"] in ("ImplicitCastExpr", "ParenExpr", "CXXStaticCastExpr"):
+                par = fn.parent(par)
+            if par is None or par["k"] != "BinaryOperator" or par.get("op") != "-":
+                continue
+            width_m1 = const_int(kids(par)[0])
+            argty = ((z["callee"].get("targs") or [None])[0] or (strip_casts(kids(z)[0]).get("ty") or "")).replace("const ", "")
+            bits = BITS.get(argty)
+            if width_m1 is None or bits is None:
+                raise dtable.Undecidable("%s: width of the clz() operand not understood (%s, %s)" % (fn.nloc(z), width_m1, argty))
+            n += 1
+            tag = "%s<%s>" % (fn.record.split("::")[-1], ",".join(fn.rtargs or []))
+            if width_m1 != bits - 1:
+                ck.violation("CLZ-WIDTH", fn.qname, "%s:%d-vs-%d" % (tag, width_m1, bits),
+                             "the highest differing bit is computed as %d - clz(v), but clz() operates on %s (%d bits, after integer promotion of the "
+                             "narrow key type): the bit index is off by %d and wraps, the bucket index leaves the bucket array"
+                             % (width_m1, argty, bits, bits - 1 - width_m1), fn.nloc(z))
+            else:
+                ck.ok("CLZ-WIDTH", tag, "%d - clz(%s)" % (width_m1, argty))
+    return n
+
+
 def run(ck):
     ck.explanation = (
         "DAryHeap / DAryAddressableIntHeap: every comparator call in sift_up, sift_down and heapify is classified by the roles of its "
@@ -669,8 +755,9 @@ def run(ck):
         "selected, the hole sinks iff a child is strictly smaller and rises iff the value is strictly smaller than the parent; left()/parent() "
         "are evaluated as index arithmetic and must be mutually inverse. Addressable heap: every store into heap_ keeps handles_ in step "
         "(or a full re-index loop follows), wholesale replacement of heap_ resets the old handles first, the handles_ growth bound covers "
-        "every key. RadixHeap: every insertion into / emptying of a bucket updates the filled_ bit, mins_ and size_ together; clear() resets "
-        "every mutable state field. Heap order over histories and the bucket arithmetic are not decided.")
+        "every key. RadixHeap: every insertion into / emptying of a bucket updates the filled_ bit, mins_ and size_ together; clear() / clear_all() reset "
+        "every mutable state field; build_heap() replaces the contents (BUILD-REPLACES); the bit-index arithmetic of the bucket computation uses the width "
+        "of the type clz() really sees, for 8..64-bit keys (CLZ-WIDTH). Heap order over histories and the bucket arithmetic are not decided.")
     arities = ["2"] if ck.tier == "quick" else ["2", "5"]
     for ar in arities:
         tu = ir.extract("witness/C13_heaps.cpp", defines=["WITNESS_ARITY=" + ar])
@@ -689,6 +776,10 @@ def run(ck):
         check_clear_complete(ck, tu, AH)
         check_radix_coupled(ck, tu)
         check_clear_complete(ck, tu, RH)
+        check_clear_complete(ck, tu, "tlx::radix_heap_detail::BitArrayRecursive", method="clear_all")
+        check_build_replaces(ck, tu, "tlx::DAryHeap")
+        check_build_replaces(ck, tu, AH)
+        ck.require(check_clz_width(ck, tu) >= 4, "the bucket computation of the radix heap (clz of the key difference) was not found for the narrow key types")
     m = len(arities)
     ck.floor("HEAP-DECISION", 12 * m)
     ck.floor("INDEX-INVERSE", 4 * m)
@@ -696,4 +787,5 @@ def run(ck):
     ck.floor("HANDLE-RESET", 8 * m)
     ck.floor("HANDLE-GROW", 2 * m)
     ck.floor("RADIX-COUPLED", 10 * m)
-    ck.floor("CLEAR-COMPLETE", 4 * m)
+    ck.floor("CLEAR-COMPLETE", 6 * m)
+    ck.floor("BUILD-REPLACES", 6 * m)
